@@ -414,8 +414,22 @@ macro_rules! int_op{
 int_op!(Plus,+);
 int_op!(Minus,-);
 int_op!(Multiply,*);
-int_op!(Divide,/);
-int_op!(Mod,%);
+function!(Divide(a: Integer, b: Integer)=>Integer, {
+    let a:i64 = a.try_into()?;
+    let b:i64 = b.try_into()?;
+    match a.checked_div(b) {
+        Some(v) => Ok(v.into()),
+        None => bail!("division by zero or overflow: {} / {}", a, b),
+    }
+});
+function!(Mod(a: Integer, b: Integer)=>Integer, {
+    let a:i64 = a.try_into()?;
+    let b:i64 = b.try_into()?;
+    match a.checked_rem(b) {
+        Some(v) => Ok(v.into()),
+        None => bail!("division by zero or overflow: {} % {}", a, b),
+    }
+});
 int_op!(BitAnd,&);
 int_op!(BitOr,|);
 int_op!(BitXor,^);
@@ -455,7 +469,7 @@ macro_rules! compare_op{
                 (Value::Integer(a),Value::Integer(b)) => Ok((a $op b).into()),
                 (Value::String(a),Value::String(b)) => Ok((a $op b).into()),
                 (Value::Boolean(a),Value::Boolean(b)) => Ok((a $op b).into()),
-                _ => panic!("not implemented")
+                (a,b) => bail!("can not compare {:?} with {:?}", a, b)
             }
         });
     }
